@@ -254,7 +254,7 @@ def main():
         ],
         "checks": checks,
         "not_applicable": na,
-        "notes": "See DESIGN.md. Exit codes: 0 held, 1 violation (VIOLATION line), 2 machinery failure.",
+        "notes": "See DESIGN.md. Exit codes: 0 held, 1 violation (VIOLATION line), 2 machinery failure. Known findings: /verif/known_findings.json (F1-F6 fixed by fix: commits in /repo; F7 open, property C15, printed as a KNOWN-FINDING line by ./check C15). Seeded changes and self-tests: /verif/seeded, tools/selftest.py. Extended specification coverage beyond the listed properties: ./check X01 .. X05 (DESIGN.md 12.6).",
     }
     with open(os.path.join(ROOT, "MANIFEST.json"), "w") as fh:
         json.dump(m, fh, indent=1)
